@@ -229,7 +229,8 @@ func (memPool *MemPool) Conflicting(tx *wire.MsgTx) []bitcoin.Hash32 {
 	// Check for conflicting inputs
 	for _, input := range tx.TxIn {
 		if list, exists := memPool.inputs[*input.PreviousOutPoint.OutpointHash()]; exists {
-			for _, hash := range list {
+			// Copy the list because removing the transactions modifies it in place.
+			for _, hash := range append([]bitcoin.Hash32{}, list...) {
 				result = append(result, hash)
 				memPool.removeTransaction(hash)
 			}
